@@ -24,6 +24,7 @@ def main():
         only = sys.argv[sys.argv.index("--only") + 1].split(",")
     all_props = "--all-props" in sys.argv
     suite = "--suite" in sys.argv
+    obl = "--obligations" in sys.argv      # only the proof obligations (regeneration from the changed source + lake build + axiom audit), no sampling
     os.makedirs(SCR, exist_ok=True)
     vcopy = os.path.join(SCR, "verif")
     sh("rsync -a --delete --exclude .git --exclude replays --exclude 'evidence' %s/ %s/" % (ROOT, vcopy))
@@ -56,6 +57,20 @@ def main():
                 res["suite"] = "passes" if (r.returncode == 0 and "[  PASSED  ] 293 tests." in out) else "FAILS: " + out[-400:]
                 shutil.rmtree(b, ignore_errors=True)
             props = ALL if all_props else meta["breaks"] + [p for p in meta.get("also_run", [])]
+            if obl:
+                ores = {}
+                for p in props:
+                    t0 = time.time()
+                    env = dict(os.environ, VERIF_REPO=wt, VERIF_OBLIGATIONS_ONLY="1")
+                    r = subprocess.run(["python3", "check.py", p, "--tier", "quick"], cwd=vcopy, stdout=subprocess.PIPE, stderr=subprocess.STDOUT, env=env)
+                    out = r.stdout.decode(errors="replace")
+                    br = [l.split(" :: ")[0].replace("BROKEN-OBLIGATION ", "") for l in out.split("\n") if l.startswith("BROKEN-OBLIGATION")]
+                    ores[p] = {"broken": br, "summary": ([l for l in out.split("\n") if l.startswith("OBLIGATIONS")] or ["(no summary: %s)" % out[-200:]])[0],
+                               "wall_s": round(time.time() - t0, 1)}
+                json.dump(ores, open(os.path.join(d, "obligations.json"), "w"), indent=1)
+                print(sid, {p: len(v["broken"]) for p, v in ores.items()}, flush=True)
+                sh("git -C /repo worktree remove --force %s" % wt)
+                continue
             for p in props:
                 t0 = time.time()
                 env = dict(os.environ, VERIF_REPO=wt)
